@@ -484,6 +484,11 @@ def corpus_cases(W):
         L([v1], I((x + Fl(0.1)) * v1 + Fl(0.2)), 'test:constant'),
         L([v1], I((x + Fl(0.1)) * v1 ** 2 + Fl(0.2) * v1), 'test:square'),
         Bi([u1], [v1], I((x + Fl(0.1)) * u1 * v1 + Fl(0.2) * u1 * v1 * v1), 'test:self-product'),
+        # linear integrands in which a constructor left an operator of a sum unevaluated (Dot(B + F, G) behind the
+        # factor v): accepted (finding C08-unevaluated-operator-rejected, fixed)
+        L([v1], I(dot(v1 * (B + F1), G1)), 'linear:unevaluated-dot'),
+        L([v1], I(dot(grad(f * x * v1), B)), 'linear:unevaluated-dot'),
+        Bi([u1], [v1], I(dot(u1 * (B + F1), grad(v1))), 'linear:unevaluated-dot'),
         # linear controls
         Bi([u1, u2], [v1, v2], I(u1 * v1 + dot(grad(u2), grad(v2))), 'linear'),
         Bi([u1, u2], [v1, v2], I(x * f * (u1 - u2) * v1) + Ib(u2 * v2), 'linear'),
@@ -556,7 +561,7 @@ def stream(stage, tier, seed, n, m):
         yield i, W, case, None
 
 
-N_CORPUS = 120     # 2 worlds x len(corpus_cases)
+N_CORPUS = 126     # 2 worlds x len(corpus_cases)
 
 
 def is_linear_label(label):
